@@ -386,3 +386,11 @@ def run_schedule(case):
 
 def run_case(case):
     return {"inproc": run_inproc, "env": run_env, "schedule": run_schedule}[case["class"]](case)
+
+
+def finalize(cases, results, tier):
+    sigs = set()
+    for r in results:
+        for x in r.get("sched_signatures", []) or []:
+            sigs.add(x)
+    return {"results": [], "coverage": {"distinct_task_completion_orders_seen": len(sigs)}}
